@@ -49,6 +49,10 @@ def impl_oracle(c):
     if op == "tojson" and c.get("reject") and o.get("ok"):
         return "accepted-invalid", "accepted %s, which has no value in the documented syntax; emitted %s" % (
             c.get("src"), o.get("text"))
+    if op in ("tojson", "unmarshal", "series") and c.get("order"):
+        bad = J.order_oracle(c)
+        if bad:
+            return bad
     if op in ("tojson", "unmarshal") and o.get("ok"):
         if o.get("valid") is False:
             return "invalid-json", "accepted, but the emitted text %s is not valid JSON" % o.get("text")
@@ -169,7 +173,10 @@ def run(ck):
              "calls with intended values; jsonx.Unmarshal into 13 target types against json.Unmarshal of ToJSON's "
              "output, and into nil / non-pointer / nil-pointer targets; documents through the entry points one after "
              "the other and from 8 goroutines; the file-level entry points (ReadFile, ReadFileMaybeJSON, "
-             "ReadSeriesFile) on documents with trailing content. A case is trivial if its input is empty or it was rejected; distinct = distinct "
+             "ReadSeriesFile) on documents with trailing content; objects of 13..40 members with repeated keys (the same "
+             "key bare and quoted), in JSONx and in plain JSON: of a repeated key the occurrence that is last in the source (the "
+             "one that wins) must be last in the emitted JSON, which must denote what encoding/json reads (a "
+             "re-ordering of distinct keys keeps the meaning and is not flagged). A case is trivial if its input is empty or it was rejected; distinct = distinct "
              "(operation, input bytes).",
         assumptions=["strconv.ParseFloat / json.Marshal(float64) satisfy the shortest-round-trip law",
                      "a Go string that is not valid UTF-8 denotes its U+FFFD-sanitised form"])
